@@ -168,7 +168,7 @@ def _build_pool(tier, seed):
         hw = HardwareView(m, None)
         rb = get_rulebook(hw)
         rev = sut.registry()[hw.vendor].reverse
-        for v in range(2):
+        for v in range(4):
             rnd = random.Random("order-%d-%s-%d" % (seed, m, v))
             jobs.append({"kind": "order", "model": m, "new": _order_tree(rnd, rb["ordering"], rev)})
     ss = corpus.samples()
@@ -415,6 +415,18 @@ def _cold_sequences(tier, seed, n):
         first = rnd.choice(byv[vendors[k % len(vendors)]])       # every vendor gets to be the first one served
         rest = [rnd.choice(byv[rnd.choice(vendors)]) for _ in range(rnd.randint(2, 4))]
         seqs.append([first] + rest)
+    # every ordered pair of hardware models with shipped ordering rulebooks: A's configuration ordered first, then B's (the same rule
+    # texts occur in several vendors' *.order files)
+    jobs = _pool(tier, seed)
+    by_model = {}
+    for i, j in enumerate(jobs):
+        if j["kind"] == "order":
+            by_model.setdefault(j["model"], []).append(i)
+    models = sorted(by_model)
+    for a in models:
+        for b in models:
+            if a != b:
+                seqs.append([by_model[a][0]] + by_model[b])
     return seqs
 
 
